@@ -208,7 +208,63 @@ def judge(w, scn, res):
                 if nid in ends and w.t_end - t0 >= 9_000_000_000:
                     bad.append(('exit-obeyed-against-policy', f'{nid} ended although the policies say it must keep running (first={first} {fkind}; policies {[(n["id"], n["prop_exit"], n["obey_exit"]) for n in scn["nodes"]]})'))
         res.nontrivial(f'{scn["family"]}|{x}|{point}|{how}|{scn["k"]}|' + ','.join(f'{n["prop_exit"][0]}{n["obey_exit"][0]}' for n in scn['nodes']))
+    bad += judge_messages(w, scn, res, ends, x, kind, point)
     res.count(f'point:{point}/{how}')
+    return bad
+
+
+def judge_messages(w, scn, res, ends, x, kind, point):
+    """Announce / obey clauses judged on the messages themselves (independent of when links came up):
+    the exiting filter sent an exit message on every socket iff its propagate policy covers the kind; every exit message
+    that reached a filter whose obey policy covers its kind ends that filter within 3 s."""
+    bad = []
+    topo = scenarios.Topo(scn)
+    pol = {n['id']: (BITS[n.get('prop_exit', 'clean')], BITS[n.get('obey_exit', 'all')]) for n in scn['nodes']}
+    # ---- announce (only for the injected filter, whose kind is known, and only if its communication existed)
+    ex = ends.get(x)
+    had_mq = any(e.get('ev') in ('bind', 'connect') and e['node'] == x for e in w.sim.log)
+    if ex is not None and had_mq and point not in ('init',):
+        bit = 1 if kind == 'clean' else 2
+        oob_pub = [e for e in w.sim.log if e.get('ev') == 'pub' and e['node'] == x and b'"mid":-2' in e['env']]
+        oob_push = [e for e in w.sim.log if e.get('ev') == 'push' and e['node'] == x and b'"mid":-2' in e['env']]
+        has_out = any(n['id'] == x and n['config'].get('outputs') for n in scn['nodes'])
+        nsrc = len(topo.inputs_of(x))
+        res.count('announce_clauses_checked')
+        if pol[x][0] & bit:
+            if has_out and not any(json.loads(e['env']).get('xtra') == kind for e in oob_pub):
+                bad.append(('exit-not-announced', f'{x} ended ({kind}) with propagate policy covering it but published no {kind!r} exit message downstream'))
+            if nsrc and len([e for e in oob_push if json.loads(e['env']).get('xtra') == kind]) < nsrc:
+                bad.append(('exit-not-announced', f'{x} ended ({kind}) with propagate policy covering it but sent {len(oob_push)} exit message(s) upstream for {nsrc} source(s)'))
+        elif oob_pub or oob_push:
+            bad.append(('exit-announced-against-policy', f'{x} ended ({kind}) and announced it although its propagate policy does not cover that kind'))
+    # ---- obey: every delivered exit message
+    for e in w.sim.log:
+        if e.get('ev') != 'oob-delivered':
+            continue
+        try:
+            k = json.loads(e['env']).get('xtra')
+        except Exception:
+            continue
+        if k not in ('clean', 'error'):
+            continue
+        n = e['to']
+        res.count('exit_messages_delivered')
+        end = ends.get(n)
+        if w.incarnation.get(n, 0) != e['to_inc']:
+            continue
+        obeys = bool(pol[n][1] & (1 if k == 'clean' else 2))
+        if obeys:
+            res.count('obey_clauses_checked')
+            late = (end is None and w.t_end - e['t'] > 3_000_000_000) or (end is not None and end['t'] - e['t'] > 3_000_000_000)
+            if late:
+                downstream = e['from'] in {c['cons'] for c in topo.consumers_of(n)}
+                starved = not any(p_['ev'] == 'process' and p_['node'] == n and p_['t'] > w.t_end - 5_000_000_000 for p_ in w.clog)
+                cons = {c['cons'] for c in topo.consumers_of(n) if not c['eph']}
+                blocked = bool(cons) and all(c in ends for c in cons)
+                mech = ('downstream-exit-unseen-while-waiting-for-input' if downstream and starved and scn_role(scn, n) != 'source' else
+                        'upstream-exit-unseen-while-blocked-in-send' if (not downstream) and blocked else 'delivered-exit-not-obeyed')
+                bad.append((mech, f'{n} was handed a {k!r} exit message from {e["from"]} at {e["t"] / 1e6:.0f} ms, obeys that kind, but '
+                                  + ('is still running' if end is None else f'ended only {(end["t"] - e["t"]) / 1e9:.1f} s later')))
     return bad
 
 
